@@ -15,13 +15,15 @@ pub fn replay(kind: &str, lines: &[Value], seed: u64) -> ReplayReport {
 }
 
 /// Returns the number of non-trivial cases the driver produced (its own rule).
-pub fn drive(kind: &str, seed: u64, n: usize, _extra: &str, sink: &mut Sink) -> usize {
+pub fn drive(kind: &str, seed: u64, n: usize, extra: &str, sink: &mut Sink) -> usize {
     match kind {
         "eval" => drive_eval(seed, n, sink),
         "ops" => drive_ops(seed, n, sink),
         "deriv" => drive_deriv(seed, n, sink),
         "integ" => drive_integ(seed, n, sink),
         "pwops" => drive_pwops(seed, n, sink),
+        "logint" => drive_logint(seed, n, sink),
+        "quartic" => drive_quartic(seed, n, extra, sink),
         "calib" => {
             drive_calib(seed, n, sink);
             0
